@@ -13,10 +13,9 @@ from harness import rollback_model as RM
 ID = 'C04'
 TITLE = 'Failed bundles leave no trace'
 PROPS = ['Props/C04']
-DISABLED = True
 RULE = ('documents and bundles from the shared history generator (plus CopyFromColumn from formula columns, raw '
         'ApplyDocActions, ReplaceTableData, bundles with a failing last action); for each bundle every instrumented '
-        'sub-step boundary is a crash point (thorough: all of them for bundles with <= 160 sub-steps, else a stratified sample of 160; quick: a stratified sample of 6): the document is rebuilt '
+        'sub-step boundary is a crash point (thorough: all of them for bundles with <= 160 sub-steps, else a stratified sample of 160; quick: a stratified sample of 5): the document is rebuilt '
         'identically, the exception injected there, then all tables, engine.schema, build_schema(metadata) and the '
         'ActionGroup of a following Calculate are compared with the state before the bundle; a case is non-trivial '
         'when the fault struck after at least one mutation (cell set / schema rebuild / undo append) of the bundle')
@@ -29,9 +28,13 @@ TRUSTED = ['Model/Rollback.v (hand-written model of docactions.py micro-step ord
 ASSUMPTIONS = ['faults are injected at instrumented sub-step boundaries (DocActions method entry, Column.set/'
                'copy_from_column/clear, rebuild_usercode, undo append, ActionSummary calls, end of a user action), '
                'not at arbitrary bytecodes',
-               'C04_rollback_partial: crash point between doc actions or inside an undo-first action, no pending '
-               'public calc delta, no ReplaceTableData in the bundle; the remaining crash points are refuted by the '
-               'C04_refuted_* witnesses (known findings)']
+               'the re-append of the popped ModifyColumn undo in doModifyColumn\'s `finally` is not a fault position',
+               'C04_rollback_partial: crash point between doc actions or anywhere inside [Bulk]AddRecord (covered_point), '
+               'no pending calc delta, no ReplaceTableData in the bundle; the remaining crash points are refuted by the '
+               'C04_refuted_* witnesses (known findings); C04_repaired_update_rolled_back covers every crash point '
+               'inside the repaired (undo-first) BulkUpdateRecord of notes/proposed_fixes',
+               'failures after the last user action (recalculation, auto-removals, final flush) and the sorted-lookup '
+               'cache are outside the model: found by the implementation oracle only']
 TECHNIQUE = ('Coq proof over a hand-written micro-step model of doc actions and rollback + event-trace tie against the '
              'instrumented engine + exhaustive fault enumeration on the implementation')
 LEVEL_TEXT = ('Kernel-checked theorems about a micro-step model of the 14 doc actions, apply_doc_action\'s schema '
@@ -603,7 +606,7 @@ def replay(ctx, w):
 def gen_runs(ctx):
   """Yields (LoggedDoc before the bundle, bundle) for generated histories."""
   n_hist = ctx.n(3, 10)
-  nb = ctx.n(4, 5)
+  nb = ctx.n(3, 5)
   for h in range(n_hist):
     gen = Gen(ctx.rng)
     ld = LoggedDoc()
@@ -660,7 +663,7 @@ def search(ctx):
     for ld, bundle in gen_runs(ctx):
       correspond_runs.append((copy.deepcopy(ld.log), copy.deepcopy(bundle), run_bundle(LoggedDoc(ld.log), bundle)))
     runs = correspond_runs
-  per_bundle = ctx.n(6, 160)
+  per_bundle = ctx.n(5, 160)
   seen_kinds = collections.Counter()
   for log, bundle, base in runs:
     base.plan = tie_plan(base) if base.raised is None else None
